@@ -388,7 +388,11 @@ func (vc *FuncVC) finish(st *State, fr *Frame, res []any) {
 		g, _ := vc.safeBool(sc, c.E, "ensures")
 		tag := ""
 		if len(c.Tags) > 0 {
-			tag = "[" + strings.Join(c.Tags, ",") + "]"
+			disp := c.Tags
+			if c.Disp != nil {
+				disp = c.Disp
+			}
+			tag = "[" + strings.Join(disp, ",") + "]"
 		}
 		// each postcondition is checked independently (not assumed for the next one)
 		save := len(st.pc)
